@@ -215,8 +215,14 @@ impl Sys {
 
     /// Executes one input line, printing observations.
     pub fn step(&mut self, line: &str, out: &mut dyn Write) {
-        writeln!(out, "{line}").unwrap();
         let t: Vec<&str> = line.split(' ').collect();
+        // `flush n` is expanded into its steps (`flushing n` … `flushed`), so that a recorded
+        // stream replays exactly
+        if t[0] == "flush" {
+            writeln!(out, "flushing {}", t[1]).unwrap();
+        } else {
+            writeln!(out, "{line}").unwrap();
+        }
         let us = |i: usize| -> usize { t[i].parse().unwrap() };
         match t[0] {
             "spawn" => {
@@ -477,7 +483,7 @@ impl Sys {
                 writeln!(out, "flushed").unwrap();
                 writeln!(out, "= ok").unwrap();
             }
-            "flushed" => writeln!(out, "= ok").unwrap(),
+            "flushed" | "flushing" => writeln!(out, "= ok").unwrap(),
             _ => writeln!(out, "= skip unknown").unwrap(),
         }
     }
@@ -685,7 +691,7 @@ struct Gen {
 
 pub fn generate(opts: &Opts, profile: &str, out: &mut Out) {
     let mut rng = Rng::new(opts.seed ^ 0x5157);
-    let cases: u64 = opts.budget.unwrap_or(if opts.thorough { 6000 } else { 300 });
+    let cases: u64 = opts.budget.unwrap_or(if opts.thorough { 40000 } else { 1500 });
     let (shard, nshards) = opts.shard;
     for id in 0..cases {
         let mut crng = rng.fork();
